@@ -53,6 +53,8 @@ class C07Oracle(Oracle):
             if c["recv_state"] not in ("CONNECTED", "HANDSHAKE_COMPLETE") or "DR" not in c["atoms"]:
                 continue
             pre = c["atoms"][: c["atoms"].index("DR")]
+            if getattr(w, "subscriber_raises", None) and "ST" in pre:
+                continue  # the failing subscriber aborts the processing of this chunk: the request behind it is never seen
             if all(a in NO_WRITE_HARMLESS or (a == "PR" and c["armed"] is None) for a in pre):
                 peer_processed = True
         return {
@@ -99,7 +101,7 @@ class C07Harness(LifeHarness):
         super().apply(w, label)
 
 
-def factory(noise: bool, seed: str) -> LifeHarness:
+def factory(noise: bool, seed: str, sub_raises: str | None = None) -> LifeHarness:
     return C07Harness(
         noise=noise,
         seed=seed,
@@ -108,6 +110,7 @@ def factory(noise: bool, seed: str) -> LifeHarness:
         user=("finish", "disc", "force", "cancel"),
         misuse=False,
         oracles=(C07Oracle(),),
+        subscriber_raises=sub_raises,
     )
 
 
@@ -202,21 +205,29 @@ def run(tier: str, seed: int) -> Result:
         cfgs.append((False, s, 3 if tier == "quick" else 4, 2))
     for s in SEEDS_NOISE:
         cfgs.append((True, s, 3 if tier == "quick" else 4, 1 if tier == "quick" else 2))
+    # an application subscriber that raises (one more close cause: the exception takes the transport down), with and without a
+    # request waiting, for exception classes a future accepts and one it refuses (StopIteration)
+    for exc in ("ValueError", "StopIteration"):
+        for s in ("connected", "req_pending"):
+            cfgs.append((False, s, 2 if tier == "quick" else 3, 1, exc))
+    cfgs.append((True, "req_pending", 2 if tier == "quick" else 3, 1, "StopIteration"))
     budget = 100.0 if tier == "quick" else 1500.0
     t_end = time.monotonic() + budget
     per_cfg = []
-    for i, (noise, sd, depth, bound) in enumerate(cfgs):
+    for i, cfg in enumerate(cfgs):
+        noise, sd, depth, bound = cfg[:4]
+        sub_raises = cfg[4] if len(cfg) > 4 else None
         left = max(5.0, (t_end - time.monotonic()) / (len(cfgs) - i))
-        st = explore_parallel(factory, (noise, sd), depth=depth, bound=bound, budget_s=left, split_depth=1)
-        per_cfg.append({"noise": noise, "seed_state": sd, "depth": depth, "deviation_bound": bound, "executions": st.executions,
+        st = explore_parallel(factory, (noise, sd, sub_raises), depth=depth, bound=bound, budget_s=left, split_depth=1)
+        per_cfg.append({"noise": noise, "seed_state": sd, "failing_subscriber": sub_raises, "depth": depth, "deviation_bound": bound, "executions": st.executions,
                         "states": st.states, "transitions": st.transitions, "time_capped": st.time_capped,
                         "distinct_outcomes": len(st.outcomes)})
         for v in st.violations:
             clause = next((c for c in v["violated"] if c.startswith("C07")), None)
             if clause is None:
                 continue  # C05's clauses are C05's business
-            key = f"{'noise' if noise else 'plain'}:{sd}:{clause[:90]}"
-            res.add(key, clause, {"harness": "lifecycle", "noise": noise, "seed_state": sd, "choices": v["choices"],
+            key = f"{'noise' if noise else 'plain'}:{sd}{':subscriber-raises-' + sub_raises if sub_raises else ''}:{clause[:90]}"
+            res.add(key, clause, {"harness": "lifecycle", "noise": noise, "seed_state": sd, "sub_raises": sub_raises, "choices": v["choices"],
                                   "violated": v["violated"], "observations": v["observations"]})
         total.merge(st)
     own = ownership_sweep(res)
@@ -280,7 +291,7 @@ def replay(rp: dict[str, Any]) -> bool:
         from . import c19
 
         return c19.replay(rp)
-    h = factory(d["noise"], d["seed_state"])
+    h = factory(d["noise"], d["seed_state"], d.get("sub_raises"))
     w = h.fresh()
     try:
         v: list[str] = []
